@@ -155,12 +155,64 @@ Qed.
 Lemma gm_mi_is_e_mean : forall m0 v0 xi si, gm_mi m0 v0 xi si == e_mean v0 xi si m0.
 Proof. intros. unfold gm_mi, e_mean. assert (si + v0 == v0 + si) by ring. rewrite H. ring. Qed.
 
-(* as coded, the constrained fit pins the mean at 0 - whatever baseline the caller passed *)
-Lemma gmfx_constrained_mean_zero : forall n x var, fst (gmfx_em n true x var) = 0.
+(* the constrained fit keeps the mean at the value passed in (the baseline) *)
+Lemma gmfx_constrained_mean_is_input : forall n m_in x var, fst (gmfx_em n true m_in x var) = m_in.
 Proof.
-  intros n x var. unfold gmfx_em.
-  assert (G : forall k st, fst st = 0 -> fst (gmfx_iter k true x var st) = 0).
-  { induction k as [|k IH]; intros [m v] H; cbn [gmfx_iter]; [exact H|].
-    apply IH. cbn in H. subst m. reflexivity. }
-  apply G. reflexivity.
+  intros n m_in x var. unfold gmfx_em.
+  assert (G : forall k st, fst (gmfx_iter k true x var st) = fst st).
+  { induction k as [|k IH]; intros [m v]; cbn [gmfx_iter]; [reflexivity|].
+    rewrite IH. reflexivity. }
+  rewrite G. reflexivity.
+Qed.
+
+(* the baseline is honoured: shifting data and baseline by the same amount leaves the
+   constrained variance update and its initial value unchanged *)
+Lemma gm_mi_shift : forall m0 v0 xi si c, ~ si + v0 == 0 ->
+  gm_mi (m0 + c) v0 (xi + c) si == gm_mi m0 v0 xi si + c.
+Proof. intros. unfold gm_mi. field. exact H. Qed.
+
+Lemma gm_cterm_shift : forall m0 v0 xi si c, ~ si + v0 == 0 ->
+  gm_cterm (m0 + c) v0 (xi + c) si == gm_cterm m0 v0 xi si.
+Proof. intros. unfold gm_cterm. rewrite gm_mi_shift by exact H. ring. Qed.
+
+Lemma csum_shift : forall m0 v0 c x var, Forall (fun s => ~ s + v0 == 0) var ->
+  qsum (map2 (gm_cterm (m0 + c) v0) (map (fun a => a + c) x) var) == qsum (map2 (gm_cterm m0 v0) x var).
+Proof.
+  intros m0 v0 c. induction x as [|a x IH]; intros [|s var] F; cbn [map map2 qsum fold_right]; try reflexivity.
+  inversion F as [|s' var' Hs F']; subst.
+  fold (qsum (map2 (gm_cterm (m0 + c) v0) (map (fun a => a + c) x) var)). fold (qsum (map2 (gm_cterm m0 v0) x var)).
+  rewrite IH by exact F'. rewrite gm_cterm_shift by exact Hs. reflexivity.
+Qed.
+
+Lemma gmfx_constrained_step_shift : forall m0 v0 c x var, Forall (fun s => ~ s + v0 == 0) var ->
+  snd (gmfx_step true (map (fun a => a + c) x) var (m0 + c, v0)) == snd (gmfx_step true x var (m0, v0)).
+Proof.
+  intros. unfold gmfx_step. cbn [snd]. rewrite !Qred_correct, qlen_map, csum_shift by assumption. reflexivity.
+Qed.
+
+Lemma qsum_shift : forall x c, qsum (map (fun a => a + c) x) == qsum x + qlen x * c.
+Proof.
+  induction x as [|a x IH]; intros c; [unfold qlen; cbn; ring|].
+  cbn [map qsum fold_right]. fold (qsum (map (fun a => a + c) x)). fold (qsum x). rewrite IH, qlen_cons. ring.
+Qed.
+
+Lemma ssd_fixed_is_sqdev : forall x m, x <> [] -> ssd_fixed x m == qsum (map (fun v => (v - m) * (v - m)) x).
+Proof.
+  intros x m H. rewrite qsum_sqdev. unfold ssd_fixed. assert (P := qlen_pos x H). field. lra.
+Qed.
+
+Lemma qsum_sqdev_shift : forall x m c,
+  qsum (map (fun v => (v - (m + c)) * (v - (m + c))) (map (fun a => a + c) x)) == qsum (map (fun v => (v - m) * (v - m)) x).
+Proof.
+  induction x as [|a x IH]; intros m c; [reflexivity|]. cbn [map qsum fold_right].
+  fold (qsum (map (fun v => (v - (m + c)) * (v - (m + c))) (map (fun a => a + c) x))).
+  fold (qsum (map (fun v => (v - m) * (v - m)) x)). rewrite IH. ring.
+Qed.
+
+Lemma gmfx_constrained_init_shift : forall x m c, x <> [] ->
+  snd (gmfx_init true (m + c) (map (fun a => a + c) x)) == snd (gmfx_init true m x).
+Proof.
+  intros x m c H. unfold gmfx_init. cbn [snd]. rewrite !Qred_correct, qlen_map.
+  assert (H' : map (fun a => a + c) x <> []) by (destruct x; [congruence|discriminate]).
+  rewrite (ssd_fixed_is_sqdev _ _ H'), (ssd_fixed_is_sqdev _ _ H), qsum_sqdev_shift. reflexivity.
 Qed.
